@@ -8,7 +8,6 @@ from harness import core
 ID = 'C11'
 TITLE = 'Two-way references stay symmetric'
 PROPS = ['Props/C11']
-DISABLED = True
 RULE = ('(L0) get_reverse_adjustments is regenerated from reverse_references.py on every run and proved equal to the hand '
         'model (Proofs/TwoWay_gen.v); (L1) fresh documents with one two-way pair (Ref/RefList on either side, two tables '
         'or a self-referential pair, a few prior updates): one BulkUpdateRecord/BulkAddRecord on either side (valid, '
@@ -29,7 +28,9 @@ TRUSTED = ['harness/k4gen.py: fail-closed translator of get_reverse_adjustments 
 ASSUMPTIONS = ['cell values are None, ints, lists of ints or strings',
                'twoway_symmetric_step assumes pairwise distinct row ids in the action (false without: known finding) and '
                'one column of the pair per action (false for both columns of a self pair: known finding)',
-               'pair_ok: exact reverse indexes (C10), row ids in 1..2^31-1, references only between existing rows']
+               'pair_ok: exact reverse indexes (C10), row ids in 1..2^31-1, references only between existing rows',
+               'the model trims one column; an action with repeated row ids AND further columns (where '
+               'trim_update_action keeps rows for the other columns) is outside the modelled inputs']
 TECHNIQUE = ('Coq proof over an executable model whose core function is regenerated from source on every run + '
              'differential correspondence with the running engine (vm_compute) + implementation oracles on histories')
 LEVEL_TEXT = ('Kernel-checked theorems, for all pair states, row lists and values: a successful update or add on either side '
@@ -213,7 +214,8 @@ def pair_case(r):
     return both_case(r, e, ta, ca, cb, ka, kb, rs)
   vals = [user_value(r, kind, targets) for _ in rs]
   colvals = {c: vals}
-  if r.random() < 0.25:
+  if r.random() < 0.25 and len(set(rs)) == len(rs):
+    # (with repeated row ids trim_update_action keeps rows for the sake of the other column: not modelled)
     colvals['N'] = [r.choice([0, 1, 2]) for _ in rs]
   action = ['BulkAddRecord' if add else 'BulkUpdateRecord', t, ids, colvals]
   col = e.tables[t].get_column(c)
@@ -450,6 +452,15 @@ class Oracle(object):
           self.issues.append(('unique_violation_changed_document',
                               'bundle %r failed with the UNIQUE error but reference cells changed' % (bundle,)))
           return 'stop'
+      # the rollback of a ReplaceTableData is a ReplaceTableData: the same clear() that keeps the relation
+      for tid, cid, c in ([] if self.visible_only else k4.ref_columns(e)):
+        d = k4.index_exact(c)
+        if d and (tid, cid) not in tok.get('stale', set()):
+          replaced = any(a[0] == 'ReplaceTableData' and a[1] == tid for a in bundle)
+          self.issues.append(('replace_table_data_breaks_two_way' if replaced else 'stale_index_after_failed_bundle',
+                              'after the failed bundle %r the reverse index of %s.%s is not the reverse of its cells: %s'
+                              % (bundle, tid, cid, d)))
+          return 'stop'
       return None
     pairs = pairs_of(e)
     self.bump('pairs_checked', ) if pairs else None
@@ -513,6 +524,8 @@ class TieOracle(Oracle):
           ids = list(range(nxt, nxt + len(ids)))
         if not all(type(i) is int and i > 0 for i in ids):
           continue
+        if others and len(set(ids)) != len(ids):
+          continue      # repeated row ids together with other columns: trimming across columns is not modelled
         col = e.tables[t].get_column(named[0])
         try:
           conv = [col.convert(G.objtypes.decode_object(copy.deepcopy(v))) for v in a[3][named[0]]]
